@@ -83,7 +83,7 @@ CLAIMED = {
    technique="Lean 4 proof (list/index reasoning over the header transcription) + differential correspondence and name-level oracle",
    design="§5 C11"),
  "C14": dict(
-   text="Theorems (Props/C14.lean), the model's linear interpolation instantiated with an arbitrary linearly ordered field: the resampled clip has floor(F * new_fps / fps) frames at the new rate (interp_frames_fps) whose instants run from 0 to 1 "
+   text="Theorems (Props/C14.lean), the model's linear interpolation instantiated with an arbitrary linearly ordered field: the resampled clip has the requested number of frames — round(F * new_fps / fps), a binary64 rounding evaluated by the caller and checked on the implementation — at the new rate (interp_frames_fps) whose instants run from 0 to 1 "
         "(linspace_ends); a track is missing at every new instant outside [first observation, last observation] (track_zero_outside_window, before_window); inside, the value equals the observation at an observed instant "
         "(linear_identity_at_observations), lies between the two neighbouring observations (linear_within_neighbours) and reproduces an affine track exactly (linear_affine_exact). Partial: float rounding and scipy's spline kinds "
         "(quadratic, cubic) are outside the theorems; for those the implementation is checked against the clauses that do not depend on the kind (frame count, rate, support window, identity at the same rate, affine exactness up to 1e-6). "
